@@ -94,6 +94,18 @@ def realize(x):
     return x
 
 
+def pick(x, lo, hi):
+    """concrete value of a bounded symbolic int through a deterministic chain of decisions x == lo, x == lo+1, ...
+    (one path per value; crosshair's own realize() lets the solver pick the candidate, which was measured to
+    revisit the same concrete input dozens of times)"""
+    if isinstance(x, bool):
+        return True if x else False
+    for v in range(lo, hi + 1):
+        if x == v:
+            return v
+    raise Prune()
+
+
 class ND:
     """Nondeterministic choices drawn from a vector of solver variables."""
 
@@ -113,6 +125,41 @@ class ND:
 
     def left(self):
         return len(self.vec) - self.i
+
+
+class NDCode:
+    """The same interface as ND, drawing all small choices as mixed-radix digits of ONE solver integer (measured: a
+    harness with seven small int parameters revisited each concrete input ~40 times, the same harness with one
+    integer visited each once).  Wide choices (clock advances, sizes) come from a separate list of solver ints."""
+
+    def __init__(self, code, wides=()):
+        self.code = code
+        self.mult = 1
+        self.wides = wides
+        self.wi = 0
+
+    def draw(self, lo, hi):
+        base = hi - lo + 1
+        if base > 16:
+            if self.wi >= len(self.wides):
+                raise Prune()
+            v = self.wides[self.wi]
+            self.wi += 1
+            if not (lo <= v <= hi):
+                raise Prune()
+            return v
+        d = (self.code // self.mult) % base
+        self.mult *= base
+        return lo + pick(d, 0, base - 1)
+
+    def flag(self):
+        return self.draw(0, 1) == 1
+
+    def left(self):
+        return 1 << 30
+
+
+CODEMAX = 10 ** 15
 
 
 class _CheapTraceback:
